@@ -32,6 +32,7 @@ def check(ctx, tier):
     viewrules.column_units(ctx, tk, "C06.c")
     viewrules.step_propagation(ctx, tk, "C06.c")
     viewrules.slice_normalisation(ctx, tk, "C06.c")
+    viewrules.empty_row_rule(ctx, tk, "C06.f")
     alias_exposure(ctx, tk)
     materialisation_step(ctx, tk, coh)
     from .. import hazards as _hz, scopes as _sc
